@@ -278,9 +278,19 @@ class SandboxedEnvironment(Environment):
 
         This also recognizes the Django convention of setting
         ``func.alters_data = True``.
+
+        Calling an object runs its ``__call__`` method and calling a class
+        runs ``__new__`` and ``__init__``, the markers of these methods count
+        as well.
         """
-        return not (
-            getattr(obj, "unsafe_callable", False) or getattr(obj, "alters_data", False)
+        if isinstance(obj, type):
+            invoked: tuple[t.Any, ...] = (obj, obj.__new__, obj.__init__)
+        else:
+            invoked = (obj, getattr(obj, "__call__", None))
+
+        return not any(
+            getattr(f, "unsafe_callable", False) or getattr(f, "alters_data", False)
+            for f in invoked
         )
 
     def call_binop(
